@@ -41,6 +41,9 @@ func addSyncIntrinsics(t map[string]intrinsic) {
 			if m.syncHook != nil {
 				m.syncHook(op, a[0].(*Value))
 			}
+			if m.tl != nil {
+				m.threadSync(fr, op, m.ptrArg(a[0], "sync mutex"))
+			}
 			return nil
 		}
 	}
